@@ -98,7 +98,26 @@ fn input_entry(ty: Ty, rng: &mut Rng) -> (String, &'static str, Option<String>) 
       1 => ("true".into(), "literal", Some("true".into())),
       _ => ("false".into(), "literal", Some("false".into())),
     },
-    Ty::Str => match rng.below(6) {
+    Ty::Str => match rng.below(9) {
+      6 => {
+        // comparisons of strings; the witness input is the bound itself
+        let k = lit(ty, rng);
+        let op = *rng.pick(&["<", "<=", ">", ">="]);
+        if rng.chance(1, 3) {
+          (format!("not({} {})", op, k), "not-comparison", Some(k))
+        } else {
+          (format!("{} {}", op, k), "comparison", Some(k))
+        }
+      }
+      7 => {
+        let (a, b) = (lit(ty, rng), lit(ty, rng));
+        let (ob, cb) = (*rng.pick(&["[", "(", "]"]), *rng.pick(&["]", ")", "["]));
+        (format!("{}{}..{}{}", ob, a, b, cb), "interval", Some(if rng.chance(1, 2) { a } else { b }))
+      }
+      8 => {
+        let (a, b) = (lit(ty, rng), lit(ty, rng));
+        (format!("{}, >= {}", a, b), "disjunction", Some(if rng.chance(1, 2) { a } else { b }))
+      }
       0 => ("-".into(), "dash", None),
       1 | 2 => {
         let l = lit(ty, rng);
@@ -131,9 +150,23 @@ fn input_entry(ty: Ty, rng: &mut Rng) -> (String, &'static str, Option<String>) 
       }
       5 | 6 => {
         let lo = rng.range(1, 4);
-        let hi = lo + rng.range(1, 3);
         let (ob, cb) = (*rng.pick(&["[", "(", "]"]), *rng.pick(&["]", ")", "["]));
-        (format!("{}{}..{}{}", ob, lo, hi, cb), "interval", Some(format!("{}", if ob == "[" { lo } else { lo + 1 })))
+        match rng.below(6) {
+          // an interval of one value, an empty one and a descending one, alone and before another test
+          0 => (format!("{}{}..{}{}", ob, lo, lo, cb), "interval-degenerate", Some(format!("{}", lo))),
+          1 => {
+            let j = rng.range(1, 6);
+            (format!("{}{}..{}{}, {}", ob, lo, lo, cb, j), "interval-degenerate", Some(format!("{}", if rng.chance(1, 2) { lo } else { j })))
+          }
+          2 => {
+            let j = rng.range(1, 6);
+            (format!("{}{}..{}{}, >= {}", ob, lo + 2, lo, cb, j), "interval-descending", Some(format!("{}", j)))
+          }
+          _ => {
+            let hi = lo + rng.range(1, 3);
+            (format!("{}{}..{}{}", ob, lo, hi, cb), "interval", Some(format!("{}", if ob == "[" { lo } else { lo + 1 })))
+          }
+        }
       }
       7 | 8 => {
         let n = 2 + rng.below(2);
@@ -748,7 +781,26 @@ fn input_tuple(t: &GenTable, wits: &[Vec<Option<String>>], rng: &mut Rng) -> Vec
 /// What a generated numeric input entry says about an integer input value, computed here from the
 /// entry's text alone (`-`, literals, comparisons, intervals with `[ ( ]` / `] ) [` ends, disjunctions,
 /// `not(…)`): the rule-matching half of the property, independent of the FEEL evaluator.
+#[derive(Clone, PartialEq, PartialOrd, Debug)]
+enum OV {
+  I(i64),
+  S(String),
+}
+
+fn ov_parse(t: &str, like: &OV) -> Option<OV> {
+  let t = t.trim();
+  match like {
+    OV::I(_) => t.parse::<i64>().ok().map(OV::I),
+    OV::S(_) => t.strip_prefix('"').and_then(|r| r.strip_suffix('"')).filter(|r| !r.contains('"') && r.is_ascii()).map(|r| OV::S(r.to_string())),
+  }
+}
+
 fn entry_oracle(entry: &str, v: i64) -> Option<bool> {
+  entry_oracle_v(entry, &OV::I(v))
+}
+
+/// As `entry_oracle`, for an integer or an (ASCII) string value: strings are ordered by their characters.
+fn entry_oracle_v(entry: &str, v: &OV) -> Option<bool> {
   let e = entry.trim();
   let (negated, body) = match e.strip_prefix("not(").and_then(|r| r.strip_suffix(')')) {
     Some(b) => (true, b),
@@ -760,23 +812,23 @@ fn entry_oracle(entry: &str, v: i64) -> Option<bool> {
     let ok = if t == "-" {
       true
     } else if let Some(r) = t.strip_prefix("<=") {
-      v <= r.trim().parse::<i64>().ok()?
+      *v <= ov_parse(r, v)?
     } else if let Some(r) = t.strip_prefix(">=") {
-      v >= r.trim().parse::<i64>().ok()?
+      *v >= ov_parse(r, v)?
     } else if let Some(r) = t.strip_prefix('<') {
-      v < r.trim().parse::<i64>().ok()?
+      *v < ov_parse(r, v)?
     } else if let Some(r) = t.strip_prefix('>') {
-      v > r.trim().parse::<i64>().ok()?
+      *v > ov_parse(r, v)?
     } else if t.contains("..") {
       let (ob, rest) = t.split_at(1);
       let (mid, cb) = rest.split_at(rest.len() - 1);
       let (lo, hi) = mid.split_once("..")?;
-      let (lo, hi) = (lo.trim().parse::<i64>().ok()?, hi.trim().parse::<i64>().ok()?);
-      let l_ok = if ob == "[" { v >= lo } else { v > lo };
-      let r_ok = if cb == "]" { v <= hi } else { v < hi };
+      let (lo, hi) = (ov_parse(lo, v)?, ov_parse(hi, v)?);
+      let l_ok = if ob == "[" { *v >= lo } else { *v > lo };
+      let r_ok = if cb == "]" { *v <= hi } else { *v < hi };
       l_ok && r_ok
     } else {
-      v == t.parse::<i64>().ok()?
+      *v == ov_parse(t, v)?
     };
     any |= ok;
   }
@@ -916,12 +968,19 @@ pub fn run(cfg: &Cfg) -> Report {
       {
         let scope: Scope = seen.clone().into();
         for (i, c) in t.ins.iter().enumerate() {
-          let v = match (&c.ty, tuple[i].as_ref().and_then(|tv| tv.trim().parse::<i64>().ok())) {
-            (Ty::Num, Some(v)) => v,
+          let v = match (&c.ty, tuple[i].as_ref()) {
+            (Ty::Num, Some(tv)) => match tv.trim().parse::<i64>() {
+              Ok(v) => OV::I(v),
+              Err(_) => continue,
+            },
+            (Ty::Str, Some(tv)) => match ov_parse(tv, &OV::S(String::new())) {
+              Some(v) => v,
+              None => continue,
+            },
             _ => continue,
           };
           for r in &t.rules {
-            let want = match entry_oracle(&r.inputs[i], v) {
+            let want = match entry_oracle_v(&r.inputs[i], &v) {
               Some(w) => w,
               None => continue,
             };
@@ -942,7 +1001,7 @@ pub fn run(cfg: &Cfg) -> Report {
                 Kind::ImplVsSpec,
                 "rule-matching",
                 "an input entry is satisfied (or not) contrary to what its text says: the set of matching rules is wrong",
-                &format!("input value {} against the input entry `{}`", v, r.inputs[i]),
+                &format!("input value {:?} against the input entry `{}`", v, r.inputs[i]),
                 &shown,
                 &want.to_string(),
               );
